@@ -16,6 +16,10 @@ SHAPES = [
     "stem", "broom", "highdeg", "bamboo",
 ]
 GEOMS = ["growth", "gauss", "far", "int", "quarter", "tiny", "big", "coincident", "axis"]
+# "pythag" (not in the default pool): every node sits at an integer multiple of an integer vector
+# of integer norm from the root, so every radial distance is an exact small integer in float32
+PYTHAG = [(1, 0, 0, 1), (3, 4, 0, 5), (1, 2, 2, 3), (2, 3, 6, 7), (1, 4, 8, 9), (4, 4, 7, 9),
+          (2, 6, 9, 11), (6, 6, 7, 11)]
 TYPES = ["soma", "random", "nonsoma"]
 
 
@@ -134,6 +138,14 @@ def positions(rng, pid_sorted: np.ndarray, geom: str) -> np.ndarray:
         return rng.integers(-20, 21, (n, 3)).astype(float)
     if geom == "quarter":
         return rng.integers(-80, 81, (n, 3)) / 4.0
+    if geom == "pythag":
+        xyz = np.zeros((n, 3))
+        xyz[0] = rng.integers(-8, 9, 3)
+        for i in range(1, n):
+            a, b, c, _ = PYTHAG[int(rng.integers(0, len(PYTHAG)))]
+            v = np.array([a, b, c], dtype=float)[rng.permutation(3)] * rng.choice([-1, 1], 3)
+            xyz[i] = xyz[0] + v * int(rng.integers(1, 5))
+        return xyz
     xyz = np.zeros((n, 3))
     if geom in ("growth", "tiny", "big", "coincident"):
         scale = {"growth": 2.0, "tiny": 1e-3, "big": 1e3, "coincident": 2.0}[geom]
